@@ -69,7 +69,7 @@ void harness(void)
 	COVER(rc == 0);
 	COVER(rc != 0);
 	if (rc == 0) {
-		POST(g_c != NULL && g_c->state == QB_IPCS_CONNECTION_ESTABLISHED && g_c->receive_buf != NULL, "an accepted client gets an established connection with a receive buffer");
+		POST(g_c != NULL && (g_c->state == QB_IPCS_CONNECTION_ESTABLISHED || g_created_disconnects) && g_c->receive_buf != NULL, "an accepted client gets an established connection (unless the application disconnected it inside connection_created) with a receive buffer");
 		size_t max = g_c->request.max_msg_size;
 		POST(__CPROVER_rw_ok(g_c->receive_buf, max), "the receive buffer is allocated for the size recorded as negotiated maximum");
 		POST(max >= nd_req_max && max >= nd_srv_max, "the negotiated maximum is at least what the client asked for and what the service enforces");
